@@ -195,6 +195,10 @@ class PExec(O.Exec):
 
     def decode_val(self, v):
         if isinstance(v, dict):
+            if "accessor" in v:
+                # exactly the object a public accessor hands out (kept by the user as an attribute)
+                lab, name = v["accessor"]
+                return getattr(self.g(lab), name)
             if "blob" in v:
                 # one bytes OBJECT per (size, key) in this world, so that several
                 # attributes can share it
@@ -469,6 +473,7 @@ class C10(engine.Property):
         "bytes-attribute",
         "slotted-attributes-pickled",
         "law-set-made-a-universe-member",
+        "attribute-holding-an-accessor-result",
     ]
 
     # -- configuration --------------------------------------------------------------------
@@ -493,6 +498,9 @@ class C10(engine.Property):
         elif r < 0.38:
             # a vertex class whose __getstate__ itself calls nrpickler.dumps
             cfg["vertex_classes"] = ["Vertex", "NestingVertex"]
+        elif r < 0.46:
+            # a vertex class with its own __setstate__ (written without super())
+            cfg["vertex_classes"] = ["Vertex", "MigratingVertex"]
         cfg["nu"] = rng.randint(0, 3)
         cfg["grow"] = rng.randint(3, 25)
         cfg["cont"] = rng.randint(3, 25)
@@ -503,7 +511,14 @@ class C10(engine.Property):
         cfg["p_attr"] = rng.choice([0.05, 0.15, 0.3])
         cfg["p_laws"] = rng.choice([0.0, 0.05, 0.1, 0.2])
         cfg["p_read1"] = rng.choice([0.2, 0.4])
-        cfg["nb_filters"] = rng.choice([[None], [None, "accept", "even", "dironly"]])
+        cfg["nb_filters"] = rng.choice(
+            [
+                [None],
+                [None, "accept", "even", "dironly"],
+                # inline-lambda style filters: pickled BY VALUE when they sit in a warm memo
+                [None, "~even", "~global"],
+            ]
+        )
         cfg["result_filters"] = [None, "even"]
         cfg["read_weights"] = {"neighbors": 3, "trav": 2, "search": 1}
         cfg["p_read"] = rng.choice([0.4, 0.6])
@@ -613,7 +628,14 @@ class C10(engine.Property):
         name = rng.choice(ATTR_NAMES)
         r = rng.random()
         refs = view.vertices() + view.edges() or objs
-        if r < 0.08:
+        if r < 0.05 and view.edges():
+            e = rng.choice(view.edges())
+            val = {"accessor": [e, "vertices"]}
+            st.stats["probe:attribute-holding-an-accessor-result"] += 1
+        elif r < 0.07 and view.vertices():
+            val = {"accessor": [rng.choice(view.vertices()), rng.choice(["links", "universes"])]}
+            st.stats["probe:attribute-holding-an-accessor-result"] += 1
+        elif r < 0.12:
             # binary data: small and shared between attributes, or past the
             # size at which pickle writes bytes out of band (64 KiB)
             val = {"blob": rng.choice([0, 3, 3, 40, 65536, 70001]), "key": rng.randrange(2)}
